@@ -20,5 +20,8 @@ OBLIGATIONS = [
      stubs={'_ZNK5draco7Options7GetBoolERKNSt7__cxx1112basic_stringIcSt11char_traitsIcESaIcEEEb': 'ret0'},
      bound='1 face with any valid indices, EVERY number of points 1..2^22 (all four index encodings and their boundaries), stream version 2.2, raw (uncompressed) connectivity',
      covers='MeshSequentialEncoder::EncodeConnectivity <-> MeshSequentialDecoder::DecodeConnectivity on real Mesh / EncoderBuffer / DecoderBuffer / EncoderOptions objects'),
+  Ob('C01.multi_rt_2', H, 'h_multi_rt', tier='thorough', unwind=10, defines={'NE': 2, 'NCOMP': 1, 'DATA_BITS': 29}, max_alloc=16, uf_int=True, timeout=1700,
+     bound='monolithic encoder->decoder round trip of the multi-parallelogram scheme: 2 entries x 1 component, values in [-2^29,2^29), arbitrary in-range table with symmetric opposite pairing',
+     covers='MeshPredictionSchemeMultiParallelogramEncoder::ComputeCorrectionValues, ...Decoder::ComputeOriginalValues (fan walk, averaging), wrap transform'),
 ]
 META = {}
